@@ -33,18 +33,20 @@ func init() {
 	comps := map[string]string{
 		"fiber app, router, DefaultCtx, redirect / flash codec, binders": "real (instrumented)",
 		"fasthttp request / response codecs, RequestCtx":                 "real (not instrumented)",
-		"fasthttp accept loop / worker pool / ctx pool":                  "stub: connection tasks own one RequestCtx each and refill it from raw bytes (harness.Conn)",
-		"sync.Pool (fiber contexts, redirects, binders)":                 "simulated: which released object serves the next request is a tape choice",
-		"template engine (Views), view bindings":                         "not exercised",
+		"fasthttp connection loop (Server.ServeConn: keep-alive, request streaming, ctx/reader/writer reuse, error responses)": "real (not instrumented) in about a third of the runs, over a simulated net.Conn whose segmentation, short reads and pauses come from the tape; otherwise stub: connection tasks own one RequestCtx each and refill it from raw bytes (harness.Conn)",
+		"fasthttp accept loop / worker pool":                             "stub (connections are created by the harness)",
+		"sync.Pool (fiber contexts, redirects, binders; fasthttp and bytebufferpool objects)": "simulated: which released object serves the next request is a tape choice; in half of the runs byte buffers are overwritten when they are handed back",
+		"template engine (Views), view bindings":                         "rendered through a template file (no engine configured)",
 	}
 	harness.Register(&harness.Engine{
 		Name: "iso", Property: "C05", Level: "exploration", Main: isoMain, MaxSimTime: 10 * time.Minute,
-		Rule: "per run the tape draws the configuration (Immutable, CaseSensitive, StrictRouting, UnescapePath), 1-4 connection tasks and up to 40 (thorough: 70) requests of about 25 kinds (parameterised / optional / wildcard routes, locals and response headers set by middleware, query/header/cookie/form/JSON binding incl. auto-handling, failing binds and unbalanced-bracket queries, redirects with flash messages and old input, flash display with valid / truncated / forged / missing-field cookies, view bindings rendered through a template file, SendFile, failing and panicking handlers, wrong and unknown methods, malformed requests; proxy headers, ProxyHeader / IP validation); " +
+		Rule: "per run the tape draws the configuration (Immutable, CaseSensitive, StrictRouting, UnescapePath), 1-4 connection tasks and up to 40 (thorough: 70) requests of about 25 kinds (parameterised / optional / wildcard routes, locals and response headers set by middleware, query/header/cookie/form/JSON binding incl. auto-handling, failing binds and unbalanced-bracket queries, redirects with flash messages and old input, flash display with valid / truncated / forged / missing-field cookies, view bindings rendered through a template file, SendFile, SendFile with options, failing and panicking handlers, 404 with a flash cookie, wrong and unknown methods, malformed requests; proxy headers, ProxyHeader / IP validation; with or without a middleware in front of everything, with or without a custom ErrorHandler that observes too); " +
 			"each request is first served by a fresh application with emptied pools (reference), then the whole history runs concurrently on one application with handlers yielding in the middle; distinct = hash of (configuration, sequence of (connection, kind)); non-trivial = a pooled context was reused by a request of another kind",
 		Assumptions: []string{
 			"the observation vector is: method, path, original URL, route, params, query, headers, cookies, host, IP, scheme, base URL, body, form value, locals and response headers visible at middleware entry, flash messages / old input, bound structs, Accepts, and the response (status, headers without Date, body)",
 			"view bindings are observed through Render with a template file (no template engine is configured)",
-			"streamed request bodies (StreamRequestBody) cannot be exercised: the connection layer of fasthttp is stubbed",
+			"streamed request bodies (StreamRequestBody) and ReduceMemoryUsage are exercised in the runs that use fasthttp's real connection loop",
+			"a request is cut into the same segments whenever it is sent within one run, so the reference observation and the history see the same delivery",
 		},
 		Components: comps,
 	})
